@@ -66,7 +66,7 @@ THEOREMS = ["ElfioVerif.C17.read_prefix", "ElfioVerif.C17.isolatedRead_prefix",
             "ElfioVerif.ComposeTables.prefixLoaded_of_load", "ElfioVerif.ComposeTables.prefix_secResident",
             "ElfioVerif.ComposeTables.prefix_strings_sound", "ElfioVerif.ComposeTables.prefix_symbols_sound"]
 EXTRA_IMPORTS = ["ElfioVerif.Props.Compose", "ElfioVerif.Props.ComposeTables"]
-SITES = ["conv", "load_s", "sec32_load", "sec64_load", "seg32_load", "seg64_load"]
+SITES = ["conv", "load_s", "sec32_load", "sec64_load", "seg32_load", "seg64_load", "seg32_range", "seg64_range"]
 RULE = ("(image, k): object 0 loads the complete well-formed image, object 1 its prefix of length k, both "
         "observed identically; images from tools/elfspec.py in 4 configurations and small bundled examples; "
         "quick: k in a boundary-biased sample (every table/record/data boundary +-1, plus random), thorough: "
